@@ -42,8 +42,10 @@ REGISTRY = {
     'C07': dict(extra_proved=['checks.lean_check.lean'], level='proof', bounded='checks.bounded.C07', pyvc=[('contracts.modularity', k, None, r'C02-') for k in ['modularity_finetune_und', 'modularity_finetune_dir']],
                 trusted=PYVC_TRUSTED + ['modularity lemmas of engine/pyvc/core.py (gain lemma, relabelling invariance, node-to-module sum identities): code-independent, Lean'],
                 assumptions=['products/quotients of two symbolic reals are kept uninterpreted (umul/udiv)', 'Louvain family, signed variants and community_louvain: bounded stand-in only (per-move woven gain check)'],
-                technique='deductive (pyvc+z3+gain lemma): bookkeeping invariant KInv and Q never below the start for modularity_finetune_und/_dir, all networks, all start partitions, all visiting orders; bounded per-move gain monitor for the other optimisers'),
+                technique='deductive (pyvc+z3+gain lemma): bookkeeping invariant KInv and Q never below the start for modularity_finetune_und/_dir, all networks, all start partitions, all visiting orders; bounded per-move gain monitor for the other optimisers'),    'C12': dict(level='other', bounded='checks.bounded.C12', pyvc=[('contracts.distance', 'retrieve_shortest_path', None, None)], trusted=PYVC_TRUSTED,
+                assumptions=['retrieve_shortest_path is proved against the abstract predicate FloydConsistent; that distance_wei_floyd establishes it, and all of navigation_wu, are covered by the bounded stand-in only'],
+                technique='deductive (pyvc+z3) for retrieve_shortest_path relative to the FloydConsistent contract of its producer; the producer contract and navigation_wu are bounded (woven postcondition on exhaustive small scopes with ties)'),
 }
-for _pid in ['C03', 'C04', 'C08', 'C09', 'C10', 'C12', 'C14', 'C16', 'C18', 'C19', 'C20']:
+for _pid in ['C03', 'C04', 'C08', 'C09', 'C10', 'C14', 'C16', 'C18', 'C19', 'C20']:
     REGISTRY.setdefault(_pid, dict(level='exploration', bounded='checks.bounded.%s' % _pid, trusted=['oracles of checks/bounded/%s.py' % _pid],
                                    technique='bounded stand-in: the property\'s contract executed on the real functions over exhaustive small scopes'))
